@@ -69,6 +69,7 @@ func LoadEngine(repoDir string, patterns []string, depsDir string) (*Engine, err
 	for fn := range ssautil.AllFunctions(prog) {
 		e.AllFuncs[fn.String()] = fn
 	}
+	e.defaultIfaceImpls()
 	// contracts & spec functions from repo packages
 	var paths []string
 	for p := range e.Pkgs {
@@ -244,4 +245,34 @@ func (e *Engine) srcText(n ast.Node) string {
 		return ""
 	}
 	return strings.Join(strings.Fields(string(b[p0.Offset:p1.Offset])), " ")
+}
+
+// resolveQualifiedType resolves "*pkg/path.Name" or "pkg/path.Name".
+func (e *Engine) resolveQualifiedType(s string) types.Type {
+	ptr := strings.HasPrefix(s, "*")
+	n := strings.TrimPrefix(s, "*")
+	k := strings.LastIndex(n, ".")
+	if k < 0 || !strings.Contains(n, "/") {
+		return nil
+	}
+	p, ok := e.Pkgs[n[:k]]
+	if !ok || p.Types == nil {
+		return nil
+	}
+	o := p.Types.Scope().Lookup(n[k+1:])
+	if o == nil {
+		return nil
+	}
+	if ptr {
+		return types.NewPointer(o.Type())
+	}
+	return o.Type()
+}
+
+// default closed-world implementations of the reader interfaces (the two readers in std/encoding)
+func (e *Engine) defaultIfaceImpls() {
+	readers := []string{"*" + repoModule + "/std/encoding.BufferReader", "*" + repoModule + "/std/encoding.WireReader"}
+	for _, k := range []string{repoModule + "/std/encoding.ParseReader", "io.ByteReader", "io.Reader"} {
+		e.IfaceImpls[k] = readers
+	}
 }
